@@ -416,7 +416,9 @@ def r9_reservoir_zero_uniform(ctx, rule="C09.R9"):
         us = {t.id for t in lp.target.elts if isinstance(t, ast.Name)}
         for x in ast.walk(lp):
             uses = []
-            if isinstance(x, ast.Call) and call_name(x) in ("log", "math.log") and x.args:
+            is_log = isinstance(x, ast.Call) and (call_name(x) == "math.log" or (isinstance(x.func, ast.Name) and (
+                x.func.id == "log" and not assigned_value(fn, "log") or any(unparse(v) == "math.log" for v in assigned_value(fn, x.func.id)))))
+            if is_log and x.args:
                 uses.append(x.args[0])
             if isinstance(x, ast.BinOp) and isinstance(x.op, ast.Pow):
                 uses.append(x.left)
